@@ -273,4 +273,19 @@ func init() {
 				Quick: map[string]int{"K": 3}, Thorough: map[string]int{"K": 4}, MaxSteps: 50_000_000},
 		},
 	})
+
+	// ---------------------------------------------------------------- C13
+	register(&checkSpec{
+		ID:   "C13",
+		Rule: "source = concrete context P (36 contexts: file, expression and class-file entry points; declarations, statements, literals, comprehensions, for-phrases, lambdas, string interpolation, tpl literals, index/slice forms) around a window of <= N symbolic ASCII bytes, ParseComments/AllErrors symbolic; the real parser (all of parser.go/parser_gop.go, scanner, go/token, go/scanner.ErrorList) runs; obligations: no escaping panic, instruction budget, nil error => no Bad node, error list sorted and inside the file",
+		Assumptions: []string{
+			"bound: windows of <= N ASCII bytes inside the listed contexts; anything needing more adjacent unconstrained bytes is outside the claim",
+			"instruction budget 3000000 per path (about 30x the cost of the longest terminating path, see evidence): exceeding it is reported as non-termination",
+			"the Bad-node walk uses ast.Inspect; node kinds ast.Walk does not handle are C18's subject and skipped here",
+		},
+		Harnesses: []harnessSpec{
+			{Name: "VxC13", Pkg: "github.com/goplus/xgo/parser", Files: []string{"c13/c13.go"},
+				Quick: map[string]int{"N": 2}, Thorough: map[string]int{"N": 3}, Variants: c15Variants(36), MaxSteps: 3_000_000, BudgetViolation: true, ReplayTimeout: 20 * time.Second},
+		},
+	})
 }
